@@ -1,5 +1,5 @@
 (* Proofs about Model/Period.v (property C13). *)
-From LedgerV Require Import Base.Prelude Model.PeriodCalendar Model.Period Proofs.PeriodCalendarProofs.
+From LedgerV Require Import Base.Prelude Model.PeriodCalendar Gen.PeriodSources Model.Period Proofs.PeriodCalendarProofs.
 From Coq Require Import Sorting.Sorted.
 Local Open Scope Z_scope.
 
@@ -1044,4 +1044,139 @@ Proof.
       destruct Hin as [<-|Hin]; [lia|]. inversion Hsort as [|? ? _ Hle]; subst.
       rewrite Forall_forall in Hle. specialize (Hle p Hin). lia.
   - lia.
+Qed.
+
+(* ================================================================================= *)
+(* Bounds written in --input-date-format                                             *)
+(* ================================================================================= *)
+
+(* the two places that compute a reader's traits recognise the same directives *)
+Lemma reader_trait_sites_agree_lemma : src_reader_traits_ctor = src_reader_traits_set_format.
+Proof. reflexivity. Qed.
+
+Lemma existsb_in {A} (f : A -> bool) l x : In x l -> f x = true -> existsb f l = true.
+Proof. intros Hin Hf. apply existsb_exists. exists x. auto. Qed.
+
+(* %Y %y %F carry a year; %m %b %B %F a month; %d %F a day (directives match case-insensitively):
+   a bound written in such a format is the date it names *)
+Lemma bound_of_text_named fmt cy z :
+  (icontains fmt [37; 121] = true \/ icontains fmt [37; 70] = true) ->
+  (icontains fmt [37; 109] = true \/ icontains fmt [37; 98] = true \/ icontains fmt [37; 70] = true) ->
+  (icontains fmt [37; 100] = true \/ icontains fmt [37; 70] = true) ->
+  bound_of_text fmt cy z = z.
+Proof.
+  intros Hy Hm Hd. unfold bound_of_text, reader_traits, traits_of, specifier_begin.
+  destruct src_reader_traits_ctor as [[ys ms] ds] eqn:E.
+  unfold src_reader_traits_ctor in E. injection E as <- <- <-.
+  pose proof (civil_roundtrip z) as R. destruct (civil_from_days z) as [[y m] d]. cbn [has_year has_month has_day].
+  match goal with |- context [existsb _ ?l] =>
+    assert (Ey : existsb (icontains fmt) l = true)
+      by (destruct Hy as [H|H]; (eapply existsb_in; [|exact H]); cbn [In]; auto 10); rewrite Ey end.
+  match goal with |- context [existsb _ ?l] =>
+    assert (Em : existsb (icontains fmt) l = true)
+      by (destruct Hm as [H|[H|H]]; (eapply existsb_in; [|exact H]); cbn [In]; auto 10); rewrite Em end.
+  match goal with |- context [existsb _ ?l] =>
+    assert (Ed : existsb (icontains fmt) l = true)
+      by (destruct Hd as [H|H]; (eapply existsb_in; [|exact H]); cbn [In]; auto 10); rewrite Ed end.
+  apply R.
+Qed.
+
+(* ================================================================================= *)
+(* --group-by                                                                        *)
+(* ================================================================================= *)
+
+Lemma flush_groups_clears fuel sow align empty st : forall groups acc,
+  flush_groups fuel sow align empty true st acc groups =
+  map (fun g => flush_posts fuel sow align empty st (sort_posts [] g)) groups.
+Proof.
+  induction groups as [|g rest IH]; intros acc; cbn [flush_groups map]; [reflexivity|].
+  rewrite IH. reflexivity.
+Qed.
+
+Lemma group_reports_independent_lemma fuel sow align empty st groups :
+  src_interval_clear_resets_all_posts = true ->
+  group_by_report fuel sow align empty st groups =
+  map (fun g => flush_posts fuel sow align empty st (sort_posts [] g)) groups.
+Proof. intros H. unfold group_by_report. rewrite H. apply flush_groups_clears. Qed.
+
+(* stable sorting *)
+From Coq Require Import Sorting.Permutation.
+
+Lemma insert_post_perm p l : Permutation (p :: l) (insert_post p l).
+Proof.
+  induction l as [|q l IH]; cbn [insert_post]; [reflexivity|].
+  destruct (p_date p <? p_date q); [reflexivity|].
+  rewrite perm_swap. constructor. exact IH.
+Qed.
+
+Lemma insert_post_sorted p l : date_sorted l -> date_sorted (insert_post p l).
+Proof.
+  unfold date_sorted. induction l as [|q l IH]; intros Hs; cbn [insert_post].
+  - constructor; constructor.
+  - destruct (Z.ltb_spec (p_date p) (p_date q)) as [Hlt|Hge].
+    + constructor; [exact Hs|]. inversion Hs as [|? ? Hs' Hle]; subst. constructor; [lia|].
+      rewrite Forall_forall in *. intros x Hx. specialize (Hle x Hx). lia.
+    + inversion Hs as [|? ? Hs' Hle]; subst. constructor; [apply IH; exact Hs'|].
+      rewrite Forall_forall in *. intros x Hx.
+      apply (Permutation_in _ (Permutation_sym (insert_post_perm p l))) in Hx.
+      destruct Hx as [<-|Hx]; [lia|apply Hle, Hx].
+Qed.
+
+Lemma sort_posts_spec l : forall acc, date_sorted acc ->
+  date_sorted (sort_posts acc l) /\ Permutation (acc ++ l) (sort_posts acc l).
+Proof.
+  unfold sort_posts. induction l as [|p l IH]; intros acc Hacc; cbn [fold_left].
+  - rewrite app_nil_r. split; [exact Hacc|reflexivity].
+  - destruct (IH (insert_post p acc) (insert_post_sorted p acc Hacc)) as [Hs Hp]. split; [exact Hs|].
+    rewrite <- Hp. rewrite <- (insert_post_perm p acc). cbn [app]. symmetry. apply Permutation_middle.
+Qed.
+
+Lemma qsum_perm a b : Permutation a b -> (qsum a == qsum b)%Q.
+Proof.
+  induction 1 as [|x l l' _ IH|x y l|l l' l'' _ IH1 _ IH2].
+  - reflexivity.
+  - change (qsum (x :: l)) with (Qred (p_amt x + qsum l)). change (qsum (x :: l')) with (Qred (p_amt x + qsum l')).
+    rewrite !Qred_correct, IH. reflexivity.
+  - change (qsum (y :: x :: l)) with (Qred (p_amt y + Qred (p_amt x + qsum l))).
+    change (qsum (x :: y :: l)) with (Qred (p_amt x + Qred (p_amt y + qsum l))).
+    rewrite !Qred_correct. ring.
+  - rewrite IH1. exact IH2.
+Qed.
+
+(* with a clear() that empties all_posts, every group's period subtotals add up to that group's
+   own postings (in whatever order the journal lists them) *)
+Lemma group_subtotals_lemma sow align empty dur from to groups fuel i g rows date :
+  src_interval_clear_resets_all_posts = true ->
+  dur_ok dur -> 0 <= sow < 7 ->
+  (forall f t, from = Some f -> to = Some t -> f < t) ->
+  nth_error groups i = Some g ->
+  nth_error (group_by_report fuel sow align empty (init dur from to) groups) i = Some (Ok rows) ->
+  Forall (fun p => (forall f, from = Some f -> f <= p_date p) /\ past to (p_date p) = false) g ->
+  first_date from (sort_posts [] g) = Some date ->
+  (Z.to_nat (date - initial_start sow align (init dur from to) date) < fuel)%nat ->
+  Permutation (concat (map r_posts rows)) g /\ Forall row_ok rows /\ (rows_total rows == qsum g)%Q.
+Proof.
+  intros Hsrc Hd Hs Hft Hg Hrows Hall Hdate Hfuel.
+  rewrite (group_reports_independent_lemma _ _ _ _ _ _ Hsrc) in Hrows.
+  rewrite nth_error_map, Hg in Hrows. cbn [option_map] in Hrows. injection Hrows as Hrun.
+  destruct (sort_posts_spec g [] ltac:(constructor)) as [Hsorted Hperm]. cbn [app] in Hperm.
+  assert (Hall' : Forall (fun p => (forall f, from = Some f -> f <= p_date p) /\ past to (p_date p) = false) (sort_posts [] g)).
+  { rewrite Forall_forall in *. intros p Hp. apply Hall. eapply Permutation_in; [symmetry; exact Hperm|exact Hp]. }
+  destruct (flush_posts_spec sow align empty dur from to _ fuel rows date Hd Hs Hft Hsorted Hall' Hdate Hfuel Hrun)
+    as (Hc & Hok & _).
+  split; [rewrite Hc; symmetry; exact Hperm|]. split; [exact Hok|].
+  rewrite rows_total_concat, Hc. symmetry. apply qsum_perm. exact Hperm.
+Qed.
+
+(* without it (the source as it stands when Gen says `false`), a later group also reports the
+   earlier groups' postings *)
+Lemma group_by_leak_lemma :
+  src_interval_clear_resets_all_posts = false ->
+  exists groups,
+    map (fun r => match r with Ok rows => map (fun w => Qred (qsum (r_posts w))) rows | Err _ => [] end)
+        (group_by_report 100 0 false false (init (mkDur QMonths 1) None None) groups)
+    = [[1%Q]; [3%Q]] /\
+    groups = [[mkPost 18632 1]; [mkPost 18647 2]].
+Proof.
+  intros H. eexists. split; [|reflexivity]. unfold group_by_report. rewrite H. vm_compute. reflexivity.
 Qed.
